@@ -22,6 +22,7 @@ import (
 	"github.com/relex/slog-agent/base"
 	"github.com/relex/slog-agent/base/bsupport"
 	"github.com/relex/slog-agent/defs"
+	"github.com/relex/slog-agent/input/syslogparser"
 	"github.com/relex/slog-agent/input/syslogprotocol"
 	"github.com/relex/slog-agent/input/tcplistener"
 	"github.com/relex/slog-agent/orchestrate/obykeyset"
@@ -252,7 +253,11 @@ type c07Pipeline struct {
 	env    *c07Env
 	loader *run.Loader
 	parser base.LogParser
-	icount *base.LogInputCounterSet
+	// the syslog parser alone (no extractions), on its own allocator and counters: tells "rejected by the parser"
+	// from "dropped by an extraction" (both are counted as dropped input)
+	plain      base.LogParser
+	plainAlloc *base.LogAllocator
+	icount     *base.LogInputCounterSet
 	orch   base.Orchestrator
 	sink   base.BufferReceiverSink
 	now    time.Time
@@ -382,6 +387,13 @@ func c07Build(cf *c07Conf) (*c07Pipeline, string) {
 	if perr != nil {
 		return nil, "cfgerr: " + perr.Error()
 	}
+	p.plainAlloc = base.NewLogAllocator(args.Schema, 1)
+	var plerr error
+	p.plain, plerr = syslogparser.NewParser(logger.Root(), p.plainAlloc, args.Schema, cf.LevelMap,
+		base.NewLogInputCounter(promreg.NewMetricFactory(prefix+"plain_", nil, nil)))
+	if plerr != nil {
+		return nil, "cfgerr: " + plerr.Error()
+	}
 	p.orch = obykeyset.NewOrchestrator(logger.Root(), args.Schema, orc.Keys, orc.TagTemplate, env.mf, starter, nil)
 	p.sink = p.orch.NewSink("c07", 1)
 	return p, ""
@@ -403,10 +415,15 @@ func (p *c07Pipeline) accept(input []byte) (*c07RecObs, bool) {
 		scratch[i] = '#' // the parser may keep the input only during the call
 	}
 	if record == nil {
-		if p.dropped() == before+1 {
+		after := p.dropped()
+		if r2 := p.plain.Parse(append([]byte(nil), input...), p.now); r2 == nil {
 			o.class = 'D'
 		} else {
 			o.class = 'E'
+			p.plainAlloc.Release(r2)
+		}
+		if after != before+1 {
+			p.env.fail("c07:drop-accounting", fmt.Sprintf("a record that is not handed on (%c) moves the dropped counter by %d: %s", o.class, int64(after)-int64(before), c07Short(input)))
 		}
 		return o, true
 	}
@@ -749,8 +766,8 @@ func c07Oracle(cf *c07Conf, full *c07RunResult, rerun func(keep []bool) c07RunRe
 	}
 	fails = append(fails, full.fails...)
 	keep := make([]bool, len(full.input))
-	nbad := 0
-	var badBytes uint64
+	nbad, nextr := 0, 0
+	var badBytes, extrBytes uint64
 	for i, r := range full.input {
 		wf, sure := c07WellFormed(r)
 		keep[i] = !(sure && !wf)
@@ -765,17 +782,22 @@ func c07Oracle(cf *c07Conf, full *c07RunResult, rerun func(keep []bool) c07RunRe
 			nbad++
 			badBytes += uint64(len(r))
 		}
+		if o.class == 'E' {
+			nextr++
+			extrBytes += uint64(len(r))
+		}
 	}
 	// accounting: dropped counts every rejected byte string exactly once
 	f := strings.Split(full.final, "#")
 	if len(f) >= 2 {
 		var in [6]uint64
 		fmt.Sscanf(strings.ReplaceAll(f[1], ",", " "), "%d %d %d %d %d %d", &in[0], &in[1], &in[2], &in[3], &in[4], &in[5])
-		if in[2] != uint64(nbad) || in[3] != badBytes {
-			fails = append(fails, Fail{"c07:drop-accounting", fmt.Sprintf("%d records (%d bytes) were rejected, the dropped counters show %d records / %d bytes: %s", nbad, badBytes, in[2], in[3], what)})
+		// rejected by the parser or dropped by an extraction: counted dropped, each exactly once; everything else passed
+		if in[2] != uint64(nbad+nextr) || in[3] != badBytes+extrBytes {
+			fails = append(fails, Fail{"c07:drop-accounting", fmt.Sprintf("%d records (%d bytes) were rejected by the parser and %d (%d bytes) dropped by the extractions, the dropped counters show %d records / %d bytes: %s", nbad, badBytes, nextr, extrBytes, in[2], in[3], what)})
 		}
-		if in[0] != uint64(len(full.input)-nbad) {
-			fails = append(fails, Fail{"c07:pass-accounting", fmt.Sprintf("%d records were accepted, the passed counter shows %d: %s", len(full.input)-nbad, in[0], what)})
+		if in[0] != uint64(len(full.input)-nbad-nextr) {
+			fails = append(fails, Fail{"c07:pass-accounting", fmt.Sprintf("%d records were handed on, the passed counter shows %d: %s", len(full.input)-nbad-nextr, in[0], what)})
 		}
 	}
 	if nbad == 0 || rerun == nil {
